@@ -277,7 +277,7 @@ class FuzzyART(BaseART):
             New cluster weight.
 
         """
-        return i
+        return np.copy(i)
 
     def get_bounding_boxes(
         self, n: Optional[int] = None
